@@ -140,9 +140,18 @@ impl Dyn {
             other => other.clone(),
         }
     }
-    /// does some sequence / tuple of the value have an item that is itself a sequence-like value
-    /// writing nothing (an empty sequence, tuple or tuple variant; nested: a sequence of only such)?
+    /// Signature of finding F19: does the value contain a sequence-like value that writes nothing (an
+    /// empty sequence / tuple / tuple variant, or one made only of such) in a position where the
+    /// serializer nevertheless reports "an element was written": as an ITEM of a sequence, wrapped in
+    /// a newtype variant, or as an empty tuple variant? (The direct value of a struct field or map
+    /// entry is not such a position: that case is finding F18, repaired.)
     pub fn has_empty_sequence_item(&self) -> bool {
+        #[derive(Clone, Copy, PartialEq)]
+        enum Ctx {
+            Field,
+            Item,
+            Wrapped,
+        }
         fn writes_nothing(d: &Dyn) -> bool {
             match d {
                 Dyn::Seq(v) | Dyn::Tuple(v) | Dyn::TupleVariant(_, _, v) => v.iter().all(writes_nothing),
@@ -150,15 +159,18 @@ impl Dyn {
                 _ => false,
             }
         }
-        match self {
-            // (an empty tuple variant writes nothing wherever it stands, and reports an element)
-            Dyn::TupleVariant(_, _, v) if v.is_empty() => true,
-            Dyn::Seq(v) | Dyn::Tuple(v) | Dyn::TupleVariant(_, _, v) => v.iter().any(|x| writes_nothing(x) || x.has_empty_sequence_item()),
-            Dyn::Some(v) | Dyn::Newtype(_, v) | Dyn::NewtypeVariant(_, _, v) => v.has_empty_sequence_item(),
-            Dyn::Map(v) => v.iter().any(|(_, x)| x.has_empty_sequence_item()),
-            Dyn::Struct(_, v) | Dyn::StructVariant(_, _, v) => v.iter().any(|(_, x)| x.has_empty_sequence_item()),
-            _ => false,
+        fn walk(d: &Dyn, ctx: Ctx) -> bool {
+            match d {
+                Dyn::Seq(v) | Dyn::Tuple(v) => (ctx != Ctx::Field && v.iter().all(writes_nothing)) || v.iter().any(|x| walk(x, Ctx::Item)),
+                Dyn::TupleVariant(_, _, v) => v.iter().all(writes_nothing) || v.iter().any(|x| walk(x, Ctx::Item)),
+                Dyn::NewtypeVariant(_, _, x) => walk(x, Ctx::Wrapped),
+                Dyn::Some(x) | Dyn::Newtype(_, x) => walk(x, ctx),
+                Dyn::Map(v) => v.iter().any(|(_, x)| walk(x, Ctx::Field)),
+                Dyn::Struct(_, v) | Dyn::StructVariant(_, _, v) => v.iter().any(|(_, x)| walk(x, Ctx::Field)),
+                _ => false,
+            }
         }
+        walk(self, Ctx::Field)
     }
     /// does some struct or map of the value name the same attribute (`@key`) twice?
     pub fn repeats_attribute_key(&self) -> bool {
